@@ -267,4 +267,34 @@ theorem evalTranspose_eq_evalWeights_list (s : Nat) (hs : 1 ≤ s) (c : List K) 
   exact evalTranspose_eq_evalWeights s hs c m i hi hm
 
 
+/-! ### the API functions on 1-D coefficient tensors `(N, C, X)` reduce to the per-line operations -/
+
+theorem subdivide_api_1d (t : Tensor K) (N C L : Nat) (hsh : t.shape = [N, C, L]) (hL : 2 ≤ L) :
+    subdivideCubicBSpline t [0] = .ok (t.mapAxis subdivide1d 2) := by
+  have hf : (List.range 3).filter (fun td => decide (2 = td)) = [2] := by decide
+  have hn : ¬ (L < 2) := by omega
+  simp [subdivideCubicBSpline, hsh]
+  rw [hf]
+  simp [hsh, hn]
+
+theorem mapAxis_shape (f : List K → List K) (t : Tensor K) (axis : Nat) :
+    (t.mapAxis f axis).shape = t.shape.set axis (f (List.replicate (t.shape.getD axis 1) ((0 : Nat) : K))).length := rfl
+
+theorem ffd_refine_api_1d (t : Tensor K) (N C m s : Nat) (hs : 1 ≤ s) (hm : 1 ≤ m)
+    (hsh : t.shape = [N, C, ctrlSize m s]) :
+    ffdGridRefine t [m] [2 * m - 1] [s]
+      = .ok ((t.mapAxis subdivide1d 2).mapAxis (fun c => (c.drop 1).take (ctrlSize (2 * m - 1) s)) 2) := by
+  have h4 := ctrlSize_ge_four m s hs hm
+  have hr := ctrlSize_refined_le m s hs hm
+  have hsub := subdivide_api_1d t N C (ctrlSize m s) hsh (by omega)
+  have e1 : 2 * m - 1 + 1 = 2 * m := by omega
+  have hlen : (subdivide1d (List.replicate (ctrlSize m s) ((0 : Nat) : K))).length = 2 * ctrlSize m s - 1 := by
+    rw [subdivide1d_length]; simp
+  have hnot : ¬ (2 * ctrlSize m s - 1 < 1 + ctrlSize (2 * m - 1) s) := by omega
+  simp [ffdGridRefine, hsub, e1, hsh, mapAxis_shape, ffdDataShape]
+  rw [subdivide1d_length]
+  simp
+  omega
+
+
 end Deepali
